@@ -576,7 +576,7 @@ package logql
 //@   ensures[unwrap-only-for-metric-queries] ur_called ==> allowUnwrap && ret1 == nil && peekTok(p) == lexer.Unwrap
 //@   loop 0 modifies p.pos, stages[*]
 //@   loop 0 invariant p.pos >= 0 && p.pos >= old(p.pos) && fresh(stages)
-//@   loop 0 body_ensures[one-stage-per-iteration] len(stages) == head(len(stages)) + 1 && forall(0, head(len(stages)), func(j int) bool { return stages[j] == head(stages[j]) })
+//@   loop 0 body_ensures[one-stage-per-iteration] len(stages) == head(len(stages)) + 1 && forall(0, head(len(stages)), func(j int) bool { return same(stages[j], head(stages[j])) })
 //@   loop 0 body_ensures[line-filter] lineFilterOp(head(peekTok(p))) != 0 ==> lf_called && typeis[*LineFilter](stages[len(stages)-1]) && as[*LineFilter](stages[len(stages)-1]) == lf_r0 && before(lf_called, p.pos) == head(p.pos)
 //@   loop 0 body_ensures[stage-keyword-follows-pipe] lineFilterOp(head(peekTok(p))) == 0 ==> head(peekTok(p)) == lexer.Pipe
 //@   loop 0 body_ensures[json] head(peekTok(p)) == lexer.Pipe && head(tokType(p, p.pos+1)) == lexer.JSON ==> jx_called && typeis[*JSONExpressionParser](stages[len(stages)-1]) &&
